@@ -265,8 +265,11 @@ def oracle_inverse(inp):
         return [('no_exception', False, 'rotated points', repr(e))]
     if which == 'numpy':
         arg = np.array(q[0] if single else q, dtype=float)
+        arg0 = arg.copy(); cen = np.array(center, dtype=float); angl = list(angles)
         try:
-            back = np.asarray(rp.bring_plane_to_origin(arg, None, center=list(center), angles=list(angles), mode=mode), float)
+            back = np.asarray(rp.bring_plane_to_origin(arg, None, center=cen, angles=angl, mode=mode), float)
+            out.append(('arguments_unchanged', bool((arg == arg0).all()) and bool((cen == np.array(center, dtype=float)).all()) and angl == list(angles),
+                        {'points': arg0.tolist(), 'center': list(center), 'angles': list(angles)}, {'points': arg.tolist(), 'center': cen.tolist(), 'angles': angl}))
             ok_shape = back.size == Pn.size
             out.append(('bring_plane_shape', ok_shape, list(Pn.shape), list(back.shape)))
             if ok_shape:
@@ -362,13 +365,100 @@ def oracle_tilt(inp):
     return out
 
 
-ORACLES = {'matrix': oracle_matrix, 'rotate': oracle_rotate, 'inverse': oracle_inverse, 'same': oracle_same, 'tilt': oracle_tilt}
+def oracle_reuse(inp):
+    """aliasing / reuse: the origin IS the point object, the same objects are used again for the way back and for a
+    second identical call, NumPy arrays and zero-copy torch views of them; no argument may change"""
+    which, mode, dtype = inp['api'], inp['mode'], inp.get('dtype', 'float64')
+    nt, tt, _ = api()
+    angles = [rep(dtype, a) for a in inp['angles']]
+    P = [[rep(dtype, v) for v in p] for p in inp['points']]
+    O = [rep(dtype, v) for v in inp['origin']]
+    F = [rep(dtype, v) for v in inp['offset']]
+    npdt = np.float64 if dtype == 'float64' else np.float32
+    eps = 3e-15 if dtype == 'float64' else 2e-6
+    Pn = np.array(P, float); On = np.array(O, float); Fn = np.array(F, float)
+    scale = float(max(np.abs(Pn - On).max(), np.abs(On).max(), np.abs(Fn).max(), np.abs(Pn).max(), 1e-300))
+    tol = (tol_angle(dtype, angles) + 8 * eps) * scale
+    out = []
+
+    if which == 'numpy':
+        mk = lambda v: np.array(v, dtype=npdt)
+        val = lambda x: np.array(x, dtype=float)
+        ang = lambda sign: [sign * a for a in angles]
+
+        def rot(pts, a, m, **kw):
+            if inp.get('fn') == 'rotate_point':
+                return np.array([np.asarray(nt.rotate_point(pts[i], angles=a, mode=m, **kw)[0], float) for i in range(len(pts))])
+            return np.asarray(nt.rotate_points(pts, angles=a, mode=m, **kw), float).reshape(-1, 3)
+    else:
+        dt = tdt(dtype)
+        if inp.get('via') == 'from_numpy':
+            mk = lambda v: torch.from_numpy(np.array(v, dtype=npdt))
+        else:
+            mk = lambda v: torch.tensor(v, dtype=dt)
+        val = lambda x: x.detach().numpy().astype(float).copy()
+        ang = lambda sign: torch.tensor([sign * a for a in angles], dtype=dt)
+
+        def rot(pts, a, m, **kw):
+            return tt.rotate_points(pts, angles=a, mode=m, **kw)[0].detach().numpy().astype(float).reshape(-1, 3)
+    try:
+        # (a) the origin is the very object that is rotated
+        piv = mk([P[0]])
+        if which == 'numpy' and inp.get('fn') == 'rotate_point':
+            piv = mk(P[0]); r = np.asarray(nt.rotate_point(piv, angles=ang(1), mode=mode, origin=piv)[0], float).reshape(-1, 3)
+        elif which == 'numpy':
+            r = rot(piv, ang(1), mode, origin=piv.reshape(-1)) if inp.get('flat_origin') else rot(piv, ang(1), mode, origin=piv)
+        else:
+            r = rot(piv, ang(1), mode, origin=piv)
+        err = float(np.abs(r[0] - Pn[0]).max())
+        out.append(('origin_is_point_stays_fixed', err <= tol, Pn[0].tolist(), r[0].tolist()))
+        out.append(('arguments_unchanged', float(np.abs(val(piv).reshape(-1) - Pn[0]).max()) == 0.0, Pn[0].tolist(), val(piv).reshape(-1).tolist()))
+        # (b) same objects, two identical calls, arguments intact
+        pts = mk(P); org = mk(O); off = mk(F); a1 = ang(1)
+        r1 = rot(pts, a1, mode, origin=org, offset=off)
+        r2 = rot(pts, a1, mode, origin=org, offset=off)
+        out.append(('repeated_identical_calls_agree', float(np.abs(r1 - r2).max()) == 0.0, r1.tolist(), r2.tolist()))
+        same = float(np.abs(val(pts) - Pn).max()) == 0.0 and float(np.abs(val(org) - On).max()) == 0.0 and float(np.abs(val(off) - Fn).max()) == 0.0
+        if which == 'torch':
+            same = same and float(np.abs(val(a1) - np.array(angles)).max()) == 0.0
+        out.append(('arguments_unchanged', same, {'points': Pn.tolist(), 'origin': O, 'offset': F}, {'points': val(pts).tolist(), 'origin': val(org).tolist(), 'offset': val(off).tolist()}))
+        if tol_angle(dtype, angles) < 1e-3:
+            ref = ref_rotate(mode, angles, Pn, On, Fn)
+            out.append(('second_call_is_stated_product', float(np.abs(r2 - ref).max()) <= tol, ref.tolist(), r2.tolist()))
+        # (c) there and back about a non-zero origin with the same objects, compared with what was passed in
+        if mode in REV:
+            fw = rot(pts, a1, mode, origin=org)
+            fwo = mk(fw.tolist())
+            bk = rot(fwo, ang(-1), REV[mode], origin=org)
+            now = val(pts)
+            out.append(('there_and_back_restores_the_passed_points', float(np.abs(bk - now).max()) <= 3 * tol and float(np.abs(bk - Pn).max()) <= 3 * tol, Pn.tolist(), bk.tolist()))
+        # (d) NumPy arrays and zero-copy torch views of the same memory give the same answer, in either order
+        if inp.get('via') == 'from_numpy' or which == 'numpy':
+            pa = np.array(P, dtype=npdt); oa = np.array(O, dtype=npdt)
+            pt_, ot_ = torch.from_numpy(pa), torch.from_numpy(oa)
+            ta = torch.tensor(angles, dtype=tdt(dtype))
+            if inp.get('torch_first', True):
+                rt = tt.rotate_points(pt_, angles=ta, mode=mode, origin=ot_)[0].detach().numpy().astype(float).reshape(-1, 3)
+                rn = np.asarray(nt.rotate_points(pa, angles=list(angles), mode=mode, origin=oa), float).reshape(-1, 3)
+            else:
+                rn = np.asarray(nt.rotate_points(pa, angles=list(angles), mode=mode, origin=oa), float).reshape(-1, 3)
+                rt = tt.rotate_points(pt_, angles=ta, mode=mode, origin=ot_)[0].detach().numpy().astype(float).reshape(-1, 3)
+            t2 = tol if dtype == 'float64' else tol + (tol_angle('float32', angles) + 4e-6) * scale
+            out.append(('shared_memory_numpy_equals_torch', float(np.abs(rt - rn).max()) <= t2, rn.tolist(), rt.tolist()))
+            out.append(('shared_memory_arguments_unchanged', float(np.abs(pa.astype(float) - Pn).max()) == 0.0 and float(np.abs(oa.astype(float) - On).max()) == 0.0, Pn.tolist(), pa.tolist()))
+    except Exception as e:
+        out.append(('no_exception', False, 'results', repr(e)))
+    return out
+
+
+ORACLES = {'reuse': oracle_reuse, 'matrix': oracle_matrix, 'rotate': oracle_rotate, 'inverse': oracle_inverse, 'same': oracle_same, 'tilt': oracle_tilt}
 
 
 def fn_of(name, inp):
     if name == 'matrix': return FN[(inp['api'], inp['fn'])]
     if name == 'rotate': return FN[(inp['api'], inp['fn'])]
     if name == 'inverse': return FN[('numpy', 'bring_plane_to_origin')] if inp['api'] == 'numpy' else FN[('torch', 'rotate_points')]
+    if name == 'reuse': return FN[(inp['api'], inp.get('fn', 'rotate_points'))]
     if name == 'same': return 'odak.tools.rotate_points|odak.learn.tools.rotate_points'
     return FN[(inp['api'], 'tilt_towards')]
 
@@ -513,6 +603,26 @@ def gen_same_cases(ctx, n):
         dtype = 'float32' if i % 4 == 3 else 'float64'
         if dtype == 'float32': angles = [a if abs(a) <= 1e6 else 1e6 for a in angles]
         out.append({'mode': MODES[i % 5], 'angles': angles, 'points': pts, 'origin': origin, 'offset': offset, 'dtype': dtype})
+    return out
+
+
+def gen_reuse_cases(ctx, n):
+    rng = ctx.rng
+    out = []
+    for i in range(n):
+        pts, origin, offset = gen_cloud(rng, i)
+        if len(pts) < 2: pts = pts + [gen_vec(rng, 1.0)]
+        origin = gen_vec(rng, [1.0, 10.0, 1e-3][i % 3])              # never zero: a zero origin hides aliasing
+        angles = gen_angles(rng, 3 + i % 5)                           # never all zero
+        which, fn, dtype, via = [('torch', 'rotate_points', 'float64', 'native'), ('numpy', 'rotate_points', 'float64', None),
+                                 ('torch', 'rotate_points', 'float32', 'from_numpy'), ('numpy', 'rotate_point', 'float64', None),
+                                 ('torch', 'rotate_points', 'float64', 'from_numpy'), ('numpy', 'rotate_points', 'float32', None)][i % 6]
+        angles = [a if abs(a) <= 1e4 else math.copysign(1e4, a) for a in angles]
+        inp = {'api': which, 'fn': fn, 'mode': MODES[i % 5], 'angles': angles, 'points': pts, 'origin': origin, 'offset': offset,
+               'dtype': dtype, 'torch_first': i % 2 == 0}
+        if via: inp['via'] = via
+        if i % 4 == 1: inp['flat_origin'] = True
+        out.append(inp)
     return out
 
 
@@ -743,6 +853,9 @@ def run_oracles(ctx, scale=1):
     for inp in gen_same_cases(ctx, 60 * scale):
         bad, res = apply_oracle(ctx, 'same', inp); n_or += 1
         ctx.case('same/%s/%s' % (inp['mode'], inp['dtype']), ('s', json.dumps(inp, sort_keys=True)), nontrivial=len(res) >= 5)
+    for inp in gen_reuse_cases(ctx, 48 * scale):
+        bad, res = apply_oracle(ctx, 'reuse', inp); n_or += 1
+        ctx.case('reuse/%s/%s/%s/%s' % (inp['api'], inp['fn'], inp['dtype'], inp.get('via', 'native')), ('u', json.dumps(inp, sort_keys=True)), nontrivial=len(res) >= 5)
     for inp in gen_tilt_cases(ctx, 40 * scale):
         bad, res = apply_oracle(ctx, 'tilt', inp); n_or += 1
         ctx.case('tilt/%s/%s' % (inp['api'], 'boundary' if inp.get('boundary') else 'generic'), ('t', json.dumps(inp, sort_keys=True)), nontrivial=len(res) >= 4)
@@ -756,6 +869,8 @@ def run(ctx):
                 '1e9..1e15 for rigidity only), all-zero and single-axis triples; five modes; clouds of 1, 2, 3, 4, 5, 7 points at scales '
                 '1e-3..1e3 with zero / random origin and offset, omitted arguments, single 1-D points; NumPy float64, PyTorch float64 and '
                 'float32; API forms of the angle argument (float, int, 0-d / 1-element tensor, list, [3] and [3,1] tensors, defaults); '
+                'aliasing / reuse stream (non-zero origins): origin is the point object, repeated identical calls, there-and-back with the same '
+                'objects, NumPy arrays shared with zero-copy torch views, arguments compared before/after; '
                 'non-trivial = all clauses of the oracle evaluated; distinct by full input')
     ctx.trusted += ['tracer/shim.py + tracer/recipes/c13.py incl. the if-conversion of the NumPy zero-angle test (translator; validated each run by the numeric self-check)',
                     'torch/numpy kernels (mm, dot, cos, sin, sqrt, arccos, arctan2, deg2rad): modelled as exact real functions; float rounding is not modelled, '
